@@ -23,10 +23,23 @@ clause → theorem
 * inline transports answer in arrival order ....................... `C03.inline_order`
 * same response on every transport, byte for byte ................. `C03.transports_agree`, `C03.wire_is_toVec`
 
-Handlers are parameters (`HOut`): the theorems hold for every handler behaviour. `transports_agree`
+* the source's per-request behaviour / connection loop are the modelled ones .. `C03.serve_facts`, `C03.respond_is_source`, `C03.serve_loop_is_source`
+* notify: run once, answered never, on every path (also off the reader) ....... `C03.notify_invoked_once_unanswered`
+* unacceptable body format ⇒ InvalidBody, per built-in handler kind ........... `C03.decode_facts`, `C03.unacceptable_format_code`
+* undecodable body ⇒ ParseError (InvalidBody at a registry mount) ............. `C03.undecodable_body_code`
+* decodable body ⇒ the closure's result ........................................ `C03.decoded_reports_closure`, `C03.builtin_response_code`
+* owned / borrowing decoder twins follow one rule; built-ins meet `Twin` ....... `C03.decode_twins`, `C03.builtin_twin`
+* same response on every transport, wrapped or bare, blocking or not,
+  for every built-in handler kind — no twin hypothesis ........................ `C03.transports_agree_builtin`, `C03.entry_facts`
+* responses queued when a WebSocket reader ends are still delivered ........... `C03.teardown_delivers_queued`
+
+Handlers are parameters (`HOut`): the general theorems hold for every handler behaviour; `transports_agree`
 needs the handler-twin contract `Twin` (the owned and the borrowed entry point of a handler return
-the same response up to the query stamp), which C07's twin differential exercises for every
-built-in handler kind. Handler panics are C16.
+the same response up to the query stamp). For the built-in handler kinds (`with_json*`, `with_typed*`,
+`with_typed_slice*`, `with_handler`, registry and struct mounts) the contract is *proved* (`builtin_twin`) from
+the decode sites' facts re-extracted from `server.rs` / `registry.rs`; what stays a parameter there is whether
+serde_json / beve decode the bytes (`decodable`) and what the registered closure returns (`Closure`).
+Custom erased handlers remain `HOut` parameters. Handler panics are C16.
 -/
 namespace Repe.C03
 
